@@ -75,7 +75,7 @@ ASSUMPTIONS = [
     "skipped on near ties; graph leaks / memory are not checked",
     "TorchScript: explored for width 3 and V^T+3 on a scriptable re-statement of the table LM "
     "(checks/_c04_lm.py::ScriptTableLM, no call counters); tracing is not explored (the repository's tests "
-    "mark it unsupported); CUDA not explored; pad_value is varied only in the object-reuse part",
+    "mark it unsupported); CUDA not explored; pad_value rotates over the default and the valid token ids 1, V-1, 0 across the search grid",
 ]
 BUDGET_S = {"quick": 240, "thorough": 2400}
 
@@ -149,7 +149,8 @@ def _run_search(ctx, case, lm, width, eos, fap, max_iters, batch_size, offs, obs
             y, lens, lp = caller()
         elif bs is None:
             cls = ObservedBeamSearch if observed else M.BeamSearch
-            bs = cls(lm, width, eos=eos, finish_all_paths=fap) if eos is not None else cls(lm, width)
+            kw = {} if case.get("pad_value") is None else {"pad_value": case["pad_value"]}
+            bs = cls(lm, width, eos=eos, finish_all_paths=fap, **kw) if eos is not None else cls(lm, width, **kw)
         elif observed:
             bs.steps = []
         init = {"off": torch.tensor(list(offs), dtype=torch.long)} if with_state else None
@@ -337,6 +338,9 @@ def _check_config(ctx, model, lm, eos, fap, width, max_iters, tier, seed, deep=F
     """all batch specs of one (model, eos, finish_all_paths, width, max_iters)"""
     case = {"kind": "search", "V": model.V, "T": model.depth, "table": model.name.split("/")[0], "seed": seed,
             "eos": eos, "fap": fap, "width": width, "max_iters": max_iters, "tier": tier, "deep": deep}
+    # the padding value rotates over the default and the VALID TOKEN IDS 1, V-1, 0 (a function of the configuration, so a
+    # replay rebuilds it): padding must never be recognised by its value - no clause depends on it
+    case["pad_value"] = (None, 1, model.V - 1, 0)[(width + (max_iters or 0) + (0 if eos is None else eos + 1) + int(fap)) % 4]
     refs, completes = {}, {}
     for o in range(3):
         try:
